@@ -158,6 +158,27 @@ func (p *PD) Close() {
 	os.RemoveAll(p.Cfg.DataDir)
 }
 
+// Restart stops the server process-like (everything in memory is gone) and starts a new one on the same data directory.
+func (p *PD) Restart() (*PD, error) {
+	p.cancel()
+	p.S.Close()
+	var np *PD
+	var err error
+	for attempt := 0; attempt < 5; attempt++ {
+		if np, err = StartCfg(p.Cfg); err == nil {
+			break
+		}
+		time.Sleep(300 * time.Millisecond)
+	}
+	if err != nil {
+		return nil, err
+	}
+	if err := np.WaitLeader(30 * time.Second); err != nil {
+		return nil, err
+	}
+	return np, nil
+}
+
 // Header returns a request header for this cluster.
 func (p *PD) Header() *pdpb.RequestHeader { return &pdpb.RequestHeader{ClusterId: p.S.ClusterID()} }
 
